@@ -33,7 +33,7 @@ STATE_MEASURE = "(policy, db kind, store fault kind, table-coverage class of the
 PROBES = [
     "lookup_tabulated", "lookup_fallback_pass", "lookup_fallback_warning_logged", "lookup_fallback_error_raised", "invalid_policy_config_error", "eop_exception_cached",
     "healed_after_restart", "late_arrival_without_restart", "day_boundary_date", "table_edge_date", "uncovered_date", "twin_equal_and_hash_checked", "range_negative_step",
-    "range_abandoned_then_reiterated", "range_interleaved", "membership_other_scale_near_end", "now_under_clock_jump", "policy_flipped", "db_flipped", "flaky_day_hit", "sub_microsecond_reading_before_tai_midnight", "range_attributes_reassigned", "date_cloned", "explicit_lookup_in_other_database",
+    "range_abandoned_then_reiterated", "range_interleaved", "membership_other_scale_near_end", "now_under_clock_jump", "policy_flipped", "db_flipped", "flaky_day_hit", "sub_microsecond_reading_before_tai_midnight", "range_attributes_reassigned", "date_cloned", "explicit_lookup_in_other_database", "result_of_addition_converted", "addition_within_the_day",
 ]
 REAL_VS_STUB = "real: beyond.dates.date (Date, DateRange, Timescale), beyond.dates.eop (readers, SimpleEopDatabase, EopDb, policies), config; stub: Path seen by eop.py (simulated disk with faults), datetime seen by date.py (virtual wall clock), extra registered databases (zero / flaky / raising); model: sim/models/timescales.py"
 ASSUMPTIONS = [
@@ -76,6 +76,9 @@ def gen_us(rng):
 
 
 def gen_life(rng, first, tier="quick"):
+    import random
+
+    child = random.Random("c03-child:" + repr(rng.getstate()[1][:8]))  # operations added after the first version draw from a generator of their own: earlier plans keep theirs
     life = {
         "policy": rng.choice(["pass", "pass", "warning", "warning", "error", "error", "strict"]),
         "dbname": rng.choice([None, None, None, "default", "zero", "flaky", "raising", "nosuchdb"]),
@@ -127,6 +130,13 @@ def gen_life(rng, first, tier="quick"):
             if op["what"] == "dbname":
                 op["value"] = rng.choice([None, "zero", "flaky", "default"])
         ops.append(op)
+        if k == "date" and child.random() < 0.3:
+            # the date just built, moved by a timedelta (same day of its own scale most of the time): the result is a date like any other
+            if child.random() < 0.7:
+                t_us = child.choice([child.randrange(ts.US_DAY), 0, ts.US_DAY - 1, 30 * 10**6, ts.US_DAY - 30 * 10**6]) - op["us"]
+            else:
+                t_us = child.randrange(-3 * ts.US_DAY, 3 * ts.US_DAY)
+            ops.append({"op": "arith_any", "t_us": t_us})
     life["ops"] = ops
     return life
 
@@ -620,6 +630,42 @@ class World:
         except Exception as e:  # noqa
             if self.policy in ("pass", "warning"):
                 ctx.violate("arithmetic", {"kind": "arithmetic_crashes", "exc": type(e).__name__}, f"{where}: date arithmetic raised {type(e).__name__}: {e}")
+
+    def op_arith_any(self, op, where):
+        """date + timedelta for a date in any of the six scales: the result is a date like any other - its own Earth-orientation
+        values, its own offsets (the periodic TDB term moves by up to 30 us within a day), same instant under every other label."""
+        ctx = self.ctx
+        if not self.pool or self.pool[-1]["cls"] is None:
+            return
+        p = self.pool[-1]
+        S = p["scale"]
+        t_us = op["t_us"]
+        r = p["reading"] + t_us
+        dd = r // ts.US_DAY
+        if ts.near_leap(self.intact.leaps, r / ts.US_DAY) or ts.near_leap(self.intact.leaps, p["reading"] / ts.US_DAY):
+            return
+        if self.dbname == "flaky" or self.text_fault or self.access_fault:
+            return
+        d = p["d"]
+        td = self.node.timedelta
+        a, cls = self.judge_lookup(lambda: d + td(microseconds=t_us), r / ts.US_DAY, f"{where}: {d} + {t_us} us", from_result=True)
+        if a is None or cls is None:
+            return
+        ctx.checks += 1
+        if a.scale.name != S:
+            ctx.violate("arithmetic", {"kind": "addition_changes_scale", "scale": S}, f"{where}: {d} + timedelta is labelled {a.scale.name}")
+            return
+        got = us_of(a.datetime)
+        if S in EXACT and S != "UTC" and abs(got - r) > 1:
+            ctx.violate("arithmetic", {"kind": "addition_wrong_reading", "scale": S}, f"{where}: {d} + {t_us} us = {a}, expected reading {dt_of(r).isoformat()}")
+            return
+        ctx.probe("result_of_addition_converted")
+        if dd == p["reading"] // ts.US_DAY:
+            ctx.probe("addition_within_the_day")
+        u, L = float(a.eop.ut1_utc), float(a.eop.tai_utc)
+        inst = got + self.off_to_tai_us(S, got, cls, u, L) if S in EXACT else None
+        self.pool.append({"d": a, "scale": S, "reading": got, "tai": inst, "cls": cls, "u": u, "L": L, "day": got // ts.US_DAY})
+        self.conversions(self.pool[-1], where + " (result of an addition)")
 
     def op_other_db(self, op, where):
         """EopDb.get(mjd, dbname=<another registered database>): judged like any lookup, and it must leave the configured
